@@ -135,7 +135,8 @@ PROPS = {
     "C12": {
         "props_module": "NexoVerif.Props.C12",
         "model": "M-QUEUE (NexoVerif/Model/Queue.lean)",
-        "engines": [{"name": "queue", "rule": "the real mailbox queue Queue<usize> through the verif hook; sequential histories over push/pop/release(MessageBorrow drop)/close/len: all histories up to length 7 (quick) / 9 (thorough) for capacities 1-4, random ones up to 4000/10000 operations for capacities 1-9, 16, 17; responses AND raw words (enqueue_pos, dequeue_pos, every stamp) compared after each operation; real-thread runs (1-3 producers with per-producer sequence numbers, one consumer, a closer thread; 40 rounds quick / 3000 thorough per configuration) checking per-producer FIFO, exactly-once and that every accepted push is received before Closed; non-trivial = queue full at least once or wrapped around; distinct by hash"}],
+        "engines": [{"name": "queue", "rule": "the real mailbox queue Queue<usize> through the verif hook; sequential histories over push/pop/release(MessageBorrow drop)/close/len: all histories up to length 7 (quick) / 9 (thorough) for capacities 1-4, random ones up to 4000/10000 operations for capacities 1-9, 16, 17; responses AND raw words (enqueue_pos, dequeue_pos, every stamp) compared after each operation; real-thread runs (1-3 producers with per-producer sequence numbers, one consumer, a closer thread; 40 rounds quick / 3000 thorough per configuration) checking per-producer FIFO, exactly-once and that every accepted push is received before Closed; non-trivial = queue full at least once or wrapped around; distinct by hash"},
+                    {"name": "net", "rule": "the mailbox in its real setting (see C03): benches with capacities 1-4 in which several senders block on one full mailbox while the receiver drains it, on 1-8 threads; a handler still suspended on a channel operation after every call returned Ok is a lost wake-up (monitor), a lost or duplicated message is a C03/C12 monitor hit"}],
         "assumptions": [
             "L2 (interleaving of concurrent producers at atomic-step granularity) and L3 (sender/receiver notification, no lost wake-up) are NOT proved: they are covered by the real-thread runs of this engine and by the blocked-sender scenarios of the net engine only; the repository's loom tests are the natural search tool for L2 under the C11 model",
             "bit operations of queue.rs are read arithmetically (x & right_mask = x % M, etc.); this reading is tied by comparing the raw words after every operation",
